@@ -112,6 +112,11 @@ def gen_axil(rng, t=None, silent=None, kind=None, nm=None, ns=None):
     if t < 8:
         for s in slaves:
             s["aw"] = s["w"] = s["ar"] = ""
+    else:
+        import re
+        for s in slaves:
+            for ch in ("aw", "w", "ar"):
+                s[ch] = re.sub("0{4,}", lambda m: "000" + "1" * (len(m.group(0)) - 3), s[ch])    # stalls of at most 3 cycles
     return scn
 
 
